@@ -617,7 +617,14 @@ impl Prop for C25 {
     let requests: Vec<Value> = (0..n_s).map(|_| gen_request(rng, rich)).collect();
     let flags: Vec<Value> = (0..n_s).map(|_| gen_cli_flags(rng, rich)).collect();
     let ffi_calls: Vec<Value> = (0..n_s).map(|_| gen_ffi_call(rng)).collect();
-    json!({"schema": schema_i, "http_bulk": rng.chance(1, 2), "refresh_on_commit": rng.chance(1, 2), "history": hist, "requests": requests, "cli_flags": flags, "ffi_calls": ffi_calls})
+    // one more pass over the same history on ONE directory: every step through a front end of
+    // its own (CLI process, HTTP service — stopped and started again in between —, FFI handle)
+    let plan: Vec<Value> = hist
+      .iter()
+      .map(|_| json!({"front": *rng.pick(&["cli", "http", "http", "ffi"]), "restart": rng.chance(1, 3)}))
+      .collect();
+    let mixed = json!({"init": *rng.pick(&["cli", "http"]), "ops": plan});
+    json!({"schema": schema_i, "http_bulk": rng.chance(1, 2), "refresh_on_commit": rng.chance(1, 2), "history": hist, "requests": requests, "cli_flags": flags, "ffi_calls": ffi_calls, "mixed": mixed})
   }
 
   fn run_case(&self, drv: &mut Driver, case: &Value, s: &mut Summary) {
@@ -1031,11 +1038,187 @@ impl Prop for C25 {
       drop(handle);
       drop(server);
     }
+    run_mixed(drv, case, s, &bin, root, &schema, &schema_json, &schema_file);
   }
 
   fn finish(&self, _tier: Tier, s: &mut Summary) {
     s.exhaustive = false;
     s.notes.push("three front ends (CLI subprocess, in-process HTTP server, FFI rlib), each against a twin directory driven by the equivalent library calls; contents compared after every commit/compaction, outcomes per operation, searches through the front end vs IndexReader::search on the twin (scores within 2e-5, ties as sets, next_cursor by presence)".into());
+  }
+}
+
+/// The same history on ONE index directory, every step through a front end of its own: CLI
+/// commands (separate processes), the HTTP service (started when needed, stopped before another
+/// front end touches the directory, and now and then stopped and started again between two
+/// requests), the FFI (handle opened and closed around its adds).  What one front end queued
+/// must be committed by the next one; the twin receives the equivalent library calls, a server
+/// start being `Index::open`.
+#[allow(clippy::too_many_arguments)]
+fn run_mixed(drv: &mut Driver, case: &Value, s: &mut Summary, bin: &Path, root: &Path, schema: &Schema, schema_json: &Value, schema_file: &Path) {
+  let hist = case["history"].as_array().cloned().unwrap_or_default();
+  let http_bulk = case["http_bulk"] == json!(true);
+  let refresh = case["refresh_on_commit"] == json!(true);
+  let fdir = root.join("mixed-front");
+  let tdir = root.join("mixed-twin");
+  let fdir_s = fdir.to_string_lossy().to_string();
+  let mut twin = Twin { dir: tdir.clone(), schema: schema.clone(), index: None, writer: None, failed: false };
+  let mut script: Vec<Value> = Vec::new();
+  let mut server: Option<Server> = None;
+  let cfg = ServerCfg { refresh_on_commit: refresh, ..Default::default() };
+  let plan_of = |k: usize| -> (String, bool) {
+    match case["mixed"]["ops"].get(k) {
+      Some(p) => (p["front"].as_str().unwrap_or("cli").to_string(), p["restart"] == json!(true)),
+      None => (["cli", "http", "ffi"][k % 3].to_string(), k % 2 == 1),
+    }
+  };
+  // a server (re)start is `Index::open` on the twin
+  macro_rules! ensure_server {
+    ($restart:expr) => {{
+      if $restart {
+        server = None;
+      }
+      if server.is_none() {
+        match Server::start(&fdir, &cfg) {
+          Ok(sv) => {
+            server = Some(sv);
+            if fdir.join("MANIFEST.json").exists() {
+              let _ = twin.exec(&[json!({"op":"open_idx","create":false})]);
+            }
+            s.count("mixed.server_start");
+          }
+          Err(e) => {
+            s.fail("mixed.server-start", "the HTTP service did not start on a directory written by another front end", case, json!(e));
+            return;
+          }
+        }
+      }
+      server.as_ref().unwrap().port
+    }};
+  }
+  // ---- init ----
+  let init_http = case["mixed"]["init"] == json!("http");
+  let init_op = if init_http { json!({"kind":"http_init"}) } else { json!({"kind":"cli_init"}) };
+  let init_ok = if init_http {
+    let port = ensure_server!(false);
+    post_json(port, "/init", schema_json).status == Some(200)
+  } else {
+    cli(bin, &["init", &fdir_s, &schema_file.to_string_lossy()]).ok
+  };
+  if !init_ok || twin.exec(&native_denote(&init_op)).is_err() {
+    s.fail("init.mixed", "initialising the shared index failed", case, json!({"front_ok": init_ok}));
+    return;
+  }
+  script.push(init_op);
+  // ---- the history ----
+  for (k, h) in hist.iter().enumerate() {
+    let (mut front, restart) = plan_of(k);
+    if front == "ffi" && h["op"] != json!("add") {
+      front = "http".into();
+    }
+    let ops = render(&front, h, schema, http_bulk, refresh);
+    let mut handle: Option<FfiHandle> = None;
+    if front != "http" {
+      // another process / handle takes over the directory: the service is stopped first
+      server = None;
+    }
+    if front == "ffi" {
+      let p = CString::new(fdir_s.clone()).unwrap();
+      let hnd = unsafe { searchlite_index_open(p.as_ptr(), false) };
+      if hnd.is_null() {
+        s.fail("mixed.ffi-open", "searchlite_index_open failed on a directory written by another front end", case, json!(k));
+        return;
+      }
+      handle = Some(FfiHandle(hnd));
+      let _ = twin.exec(&[json!({"op":"open_idx","create":false})]);
+    }
+    for fop in ops {
+      let kind = fop["kind"].as_str().unwrap_or("").to_string();
+      let sub = json!({"front": "mixed", "via": front, "restart": restart, "schema": case["schema"], "op": fop, "after": k, "history": case["history"], "mixed": case["mixed"]});
+      let raw_docs: Vec<Value> = fop["docs"].as_array().map(|a| a.iter().map(|d| d["doc"].clone()).collect()).unwrap_or_default();
+      let front_ok: bool = match kind.as_str() {
+        "cli_add" | "cli_update" => {
+          let f = root.join(format!("mixed-docs-{k}.jsonl"));
+          let txt: String = raw_docs.iter().map(|d| format!("{d}\n")).collect();
+          std::fs::write(&f, txt).unwrap();
+          cli(bin, &[if kind == "cli_add" { "add" } else { "update" }, &fdir_s, &f.to_string_lossy()]).ok
+        }
+        "cli_delete" => {
+          let f = root.join(format!("mixed-ids-{k}.txt"));
+          let txt: String = fop["ids"].as_array().unwrap().iter().map(|d| format!("{}\n", d.as_str().unwrap_or(""))).collect();
+          std::fs::write(&f, txt).unwrap();
+          cli(bin, &["delete", &fdir_s, &f.to_string_lossy()]).ok
+        }
+        "cli_commit" => cli(bin, &["commit", &fdir_s]).ok,
+        "cli_compact" => cli(bin, &["compact", &fdir_s]).ok,
+        "ffi_add" => {
+          let js = CString::new(fop["doc"]["doc"].to_string()).unwrap();
+          unsafe { searchlite_add_json(handle.as_ref().unwrap().0, js.as_ptr(), js.as_bytes().len()) >= 0 }
+        }
+        _ => {
+          let port = ensure_server!(restart);
+          match kind.as_str() {
+            "http_add" => {
+              let body: String = raw_docs.iter().map(|d| format!("{d}\n")).collect();
+              simple(port, "POST", "/add", Some("application/x-ndjson"), body.as_bytes()).status == Some(200)
+            }
+            "http_bulk" => post_json(port, "/bulk", &json!({"docs": raw_docs})).status == Some(200),
+            "http_delete" => post_json(port, "/delete", &json!({"ids": fop["ids"]})).status == Some(200),
+            "http_commit" => simple(port, "POST", "/commit", None, b"").status == Some(200),
+            "http_compact" => simple(port, "POST", "/compact", None, b"").status == Some(200),
+            _ => true,
+          }
+        }
+      };
+      let twin_res = twin.exec(&native_denote(&fop));
+      script.push(fop.clone());
+      s.count(&format!("mixed.op.{kind}.{}", if front_ok { "ok" } else { "rejected" }));
+      let mut nontrivial = !front_ok;
+      if front_ok != twin_res.is_ok() {
+        s.fail(&format!("outcome.mixed.{kind}"), "the front-end operation and the equivalent library calls disagree on success/failure (shared directory)", &sub, json!({"front_ok": front_ok, "library": format!("{twin_res:?}")}));
+        return;
+      }
+      if matches!(kind.as_str(), "cli_commit" | "http_commit" | "ffi_add" | "cli_compact" | "http_compact") {
+        match (live_of(&fdir), live_of(&tdir)) {
+          (Ok(a), Ok(b)) => {
+            nontrivial = nontrivial || !a.is_empty() || !b.is_empty();
+            if a != b {
+              let df: Vec<&String> = a.keys().filter(|k| b.get(*k) != a.get(*k)).collect();
+              let dt: Vec<&String> = b.keys().filter(|k| a.get(*k) != b.get(*k)).collect();
+              s.fail("contents.mixed", "one index directory driven through several front ends (CLI processes, restarted HTTP service, FFI handles): contents after a commit differ from the same operations through the library", &sub, json!({"differs_front": df, "differs_library": dt}));
+              s.disagree("denote.effect", &sub, json!({"front": a.keys().collect::<Vec<_>>()}), json!({"library": b.keys().collect::<Vec<_>>()}));
+              return;
+            }
+            // the contents model: a restart or a change of front end is not an operation
+            let m = drv.call("C25", json!({"op":"run","script": script}));
+            let ids_model: std::collections::BTreeSet<String> = m["state"]["committed"].as_array().map(|x| x.iter().filter_map(|kv| kv[0].as_str().map(String::from)).collect()).unwrap_or_default();
+            let ids_impl: std::collections::BTreeSet<String> = a.keys().cloned().collect();
+            if m["ok"] != json!(true) || ids_model != ids_impl {
+              s.disagree("contents.model", &json!({"front": "mixed", "script": script}), json!(ids_impl), m["state"]["committed"].clone());
+            }
+          }
+          (a, b) => {
+            if a.is_ok() != b.is_ok() {
+              s.fail("contents.mixed", "contents readable on one side only", &sub, json!({"front": format!("{a:?}"), "library": format!("{b:?}")}));
+              return;
+            }
+          }
+        }
+      }
+      s.case(&sub, nontrivial);
+    }
+    drop(handle);
+  }
+  // ---- searches through the (restarted) service ----
+  let port = ensure_server!(true);
+  for req in case["requests"].as_array().cloned().unwrap_or_default().into_iter().take(3) {
+    let mut req = req;
+    if let Some(o) = req.as_object_mut() {
+      o.remove("page2");
+    }
+    let fr = post_json(port, "/search", &req);
+    let lib = lib_search(&tdir, &req);
+    let sub = json!({"front":"mixed","schema":case["schema"],"history":case["history"],"mixed":case["mixed"],"request":req});
+    compare_search(s, "mixed.http", &sub, fr.status == Some(200), fr.json(), &lib, None);
   }
 }
 
